@@ -156,10 +156,6 @@ class Run:
             s.add(g)
         return s.check() == z3.unsat
 
-    def _probe(self, node):
-        """evaluate a clause operand for its errors only (no obligations are emitted in spec mode)"""
-        self.ev(node)
-
     def truth(self, v):
         return self.branch(to_bool_term(v))
 
@@ -521,7 +517,7 @@ class Run:
         if sp is not None and not sp.inline and not self.spec_mode:
             from .contracts import apply_contract
             return apply_contract(self, fi, sp, env, dyn_cls)
-        if sp is not None and self.spec_mode and sp.pure and sp.result:
+        if sp is not None and self.spec_mode and (sp.pure or sp.functional) and sp.result:
             # a pure function named inside a clause: its contract's result (no obligations in specifications)
             from .contracts import apply_contract
             return apply_contract(self, fi, sp, env, dyn_cls, silent=True)
@@ -558,38 +554,37 @@ class Run:
     def ex_BoolOp(self, n):
         # short-circuit with Python value semantics
         is_and = isinstance(n.op, ast.And)
-        vals = []
-        for i, e in enumerate(n.values):
-            v = self.ev(e)
-            last = i == len(n.values) - 1
-            if self.spec_mode:
+        if self.spec_mode:
+            vals = []
+            for e in n.values:
+                try:
+                    v = self.ev(e)
+                except (Unsupported, AttributeError, KeyError, TypeError, z3.Z3Exception):
+                    # this operand only makes sense under the earlier ones (e.g. `is_predict or val(result, ..)`):
+                    # the path condition must decide the operands seen so far
+                    sofar = [to_bool_term(x) for x in vals]
+                    if sofar and is_and and self.entails(z3.Not(z3.And(*sofar))):
+                        return BoolV(False)
+                    if sofar and (not is_and) and self.entails(z3.Or(*sofar)):
+                        return BoolV(True)
+                    raise
                 ct = z3.simplify(to_bool_term(v))
                 if is_and and z3.is_false(ct):
                     return BoolV(False)
                 if (not is_and) and z3.is_true(ct):
                     return BoolV(True)
                 vals.append(v)
-                if not last:
-                    # the next operand may only make sense under this one (e.g. `is_predict or val(result, ..)`):
-                    # if it cannot be evaluated, the path condition must decide the operands seen so far
-                    try:
-                        self._probe(n.values[i + 1])
-                    except (Unsupported, AttributeError, KeyError, TypeError, z3.Z3Exception):
-                        sofar = [to_bool_term(x) for x in vals]
-                        if is_and and self.entails(z3.Not(z3.And(*sofar))):
-                            return BoolV(False)
-                        if (not is_and) and self.entails(z3.Or(*sofar)):
-                            return BoolV(True)
-                continue
-            if last:
+            terms = [to_bool_term(v) for v in vals]
+            return BoolV(z3.And(*terms) if is_and else z3.Or(*terms))
+        for i, e in enumerate(n.values):
+            v = self.ev(e)
+            if i == len(n.values) - 1:
                 return v
             t = self.truth(v)
             if is_and and not t:
                 return v
             if (not is_and) and t:
                 return v
-        terms = [to_bool_term(v) for v in vals]
-        return BoolV(z3.And(*terms) if is_and else z3.Or(*terms))
 
     def ex_Compare(self, n):
         left = self.ev(n.left)
